@@ -58,12 +58,20 @@
     ties both (ghost emission-time window starts per queued frame) is not
     formalised — decided on the implementation by the lockstep `long` stream
     and the end-to-end 255 … 600-segment runs.
-  * `single_fault_progress` (leads-to) is NOT proved; the clause "any one
-    fault is repaired" is decided on the implementation by the exhaustive
+  * `single_fault_progress` (leads-to) is NOT proved.  Proved:
+    `single_fault_progress_partial`, `ack_progress_client/server` — the steps a
+    recovery consists of (timer with a retry left re-emits the outstanding
+    window and spends one retry; gives up iff none is left; an ack in the
+    window moves it strictly forward and restores all retries).  Their
+    composition to success under one fault is decided by kernel-evaluated
+    model-side sweeps of concrete exchanges (TESTS `sweep_*`,
+    Lemmas/TsmC05Sweep*.lean) and on the implementation by the exhaustive
     single-fault sweep of harness/c05_impl.py.
 -/
 import BacVerif.Lemmas.TsmC05A
 import BacVerif.Lemmas.TsmC05WinStep
+import BacVerif.Lemmas.TsmC05Retry
+import BacVerif.Lemmas.TsmC05Sweep2
 import BacVerif.Props.C11
 import BacVerif.Props.C12
 namespace BacVerif.C05
@@ -215,6 +223,87 @@ theorem server_append_in_order {cfg : Cfg} {now : Nat} {k : Key} {b : Body} {a c
     buffer unchanged -/
 theorem duplicates_never_extend {last seq : Nat} (hl : last < 256) (hd : seq = last) :
     seq ≠ (last + 1) % 256 := duplicate_not_next hl hd
+
+/-! ## 3b. recovery from a lost frame: the sender's measure -/
+
+/-- **single_fault_progress (partial: the steps a recovery consists of, not
+    their composition).**  For a transaction that is SENDING segments
+    (client in SEGMENTED_REQUEST, server in SEGMENTED_RESPONSE), with the
+    lexicographic measure (segments acknowledged = `initialSequenceNumber`,
+    retries left = `retries − segmentRetryCount`):
+    1. its timer with a retry left keeps it sending, spends exactly ONE retry,
+       leaves window start / window / context as they are and re-emits the
+       whole outstanding window (`retransmit`: segment 0 alone while nothing is
+       acknowledged, otherwise `fill_window(initialSequenceNumber)` — genuine
+       frames inside the window by `window_step`);
+    2. it gives up on its timer IFF no retry is left — one lost frame (one
+       timer expiry) never ends a transfer while `retries ≥ 1`;
+    (`ack_progress_client/server`): a SegmentAck inside the window moves the
+    window start STRICTLY forward past the acknowledged segment and restores
+    ALL retries (or, for the last segment, ends the sending phase); one
+    outside the window changes neither; and the receiver accepts the next
+    expected segment whenever it arrives (`*_append_in_order`).
+
+    Full statement (NOT proved): for ≤ 256 segments, with one frame dropped,
+    duplicated or delayed, fair timers (receiver 4 × T_seg against the
+    sender's T_seg) and otherwise faithful in-order delivery, the pair reaches
+    the state in which B was indicated exactly `P` and A confirmed exactly `R`.
+    Decided instead by: the model-side sweeps `sweep_3x3`, `sweep_6x6_w35`,
+    `sweep_1x3_206`, `sweep_6x6_w18` (kernel-evaluated TESTS of the faithful
+    scheduler, every single fault at every frame number of concrete
+    exchanges; `sweep_contrast`: without retries the same sweep fails) and the
+    exhaustive single-fault sweep on the real stacks (harness/c05_impl.py). -/
+theorem single_fault_progress_partial {cfg : Cfg} {now : Nat} {di : Option DeviceInfo} {k : Key} {b : Body} :
+    (b.st = .segReq → b.segRetry < cfg.retries →
+      ∃ b', clientTimeout cfg now di k b = (some b', retransmit cfg k (retryBody cfg now b)) ∧
+        b'.st = .segReq ∧ b'.segRetry = b.segRetry + 1 ∧ b'.initSeq = b.initSeq ∧ b'.ctx = b.ctx ∧
+        b'.window = b.window ∧ b'.segCount = b.segCount ∧ b'.segSize = b.segSize) ∧
+    (b.st = .segReq → ((clientTimeout cfg now di k b).1 = none ↔ ¬ b.segRetry < cfg.retries)) ∧
+    (b.st = .segResp → b.segRetry < cfg.retries →
+      ∃ b', serverTimeout cfg now k b = (some b', retransmit cfg k (retryBody cfg now b)) ∧
+        b'.st = .segResp ∧ b'.segRetry = b.segRetry + 1 ∧ b'.initSeq = b.initSeq ∧ b'.ctx = b.ctx ∧
+        b'.window = b.window ∧ b'.segCount = b.segCount ∧ b'.segSize = b.segSize) ∧
+    (b.st = .segResp → ((serverTimeout cfg now k b).1 = none ↔ ¬ b.segRetry < cfg.retries)) :=
+  ⟨client_retry, client_gives_up_iff, server_retry, server_gives_up_iff⟩
+
+/-- a SegmentAck at a sending client: outside the window nothing but the timer
+    changes; the final one ends the sending phase; any other one inside the
+    window moves the window start strictly forward and restores all retries -/
+theorem ack_progress_client {cfg : Cfg} {now : Nat} {k : Key} {b : Body} {a : Apdu} (hst : b.st = .segReq)
+    (h4 : a.ty = 4) :
+    let x := clientConfirmation cfg now k b a
+    (inWindow a.seq b.initSeq a.win = false →
+        ∃ b', x = (some b', []) ∧ b'.st = .segReq ∧ b'.initSeq = b.initSeq ∧ b'.segRetry = b.segRetry) ∧
+    (inWindow a.seq b.initSeq a.win = true → ackedIndex b a.seq + 1 ≥ b.segCount →
+        ∃ b', x = (some b', []) ∧ b'.st = .awaitConf) ∧
+    (inWindow a.seq b.initSeq a.win = true → ackedIndex b a.seq + 1 < b.segCount →
+        ∃ b', x.1 = some b' ∧ b'.st = .segReq ∧ b'.initSeq = ackedIndex b a.seq + 1 ∧
+          b.initSeq < b'.initSeq ∧ b'.segRetry = 0 ∧ b'.window = some a.win) :=
+  client_ack hst h4
+
+/-- the same at a sending server (the final ack ends the transaction) -/
+theorem ack_progress_server {cfg : Cfg} {now : Nat} {k : Key} {b : Body} {a : Apdu} (hst : b.st = .segResp)
+    (h4 : a.ty = 4) :
+    let x := serverIndication cfg now k b a
+    (inWindow a.seq b.initSeq a.win = false →
+        ∃ b', x = (some b', []) ∧ b'.st = .segResp ∧ b'.initSeq = b.initSeq ∧ b'.segRetry = b.segRetry) ∧
+    (inWindow a.seq b.initSeq a.win = true → ackedIndex b a.seq + 1 ≥ b.segCount → x = (none, [])) ∧
+    (inWindow a.seq b.initSeq a.win = true → ackedIndex b a.seq + 1 < b.segCount →
+        ∃ b', x.1 = some b' ∧ b'.st = .segResp ∧ b'.initSeq = ackedIndex b a.seq + 1 ∧
+          b.initSeq < b'.initSeq ∧ b'.segRetry = 0 ∧ b'.window = some a.win) :=
+  server_ack hst h4
+
+/-- non-vacuity: a client that sent segments 1, 2 of 3 (window start 1, window 2, no retry spent):
+    its timer re-emits exactly segments 1 and 2 and spends one retry -/
+example :
+    let cfg : Cfg := { BacVerif.Gen.TsmDefaults.cfg with seg := .both, maxSegs := some 16, maxApdu := 50 }
+    let s1 := (step cfg Sap.init (.request 1 200 (List.replicate 100 7) none)).1
+    let s2 := (step cfg s1 (.frame 1 (mkSegAck false true 1 0 2))).1
+    let s3 := (step cfg s2 (.tick 1500000)).1
+    let r := step cfg s3 (.timeout false 1 1)
+    (r.2.map fun o => match o with | .send _ a => (a.seq, a.mor) | _ => (99, false)) = [(1, true), (2, false)] ∧
+    (r.1.clients.map fun t => (t.body.st, t.body.initSeq, t.body.segRetry)) = [(St.segReq, 1, 1)] := by
+  decide +kernel
 
 /-! ## 4. two parties and a hostile medium -/
 
